@@ -408,6 +408,10 @@ class Evaluator:
                 v = self.ev(node.args[0])
                 if not isinstance(v, Abs):
                     return len(v)
+            if f.id in ("list", "tuple", "set", "dict") and \
+                    not node.args and not node.keywords:
+                return {"list": list, "tuple": tuple, "set": set,
+                        "dict": dict}[f.id]()
             if f.id in ("list", "tuple", "set", "sorted") and \
                     len(node.args) == 1:
                 v = self.ev(node.args[0])
@@ -761,6 +765,19 @@ class Evaluator:
                         self.env[e.id] = x
                 else:
                     raise Unsupported("table evaluator: loop target")
+                try:
+                    self.block(st.body)
+                except _Break:
+                    break
+                except _Continue:
+                    continue
+            return
+        if isinstance(st, ast.While) and not st.orelse:
+            n = 0
+            while self.truth(self.ev(st.test)):
+                n += 1
+                if n > 5000:
+                    raise Unsupported("table evaluator: while loop bound")
                 try:
                     self.block(st.body)
                 except _Break:
